@@ -108,8 +108,10 @@ class Execution(object):
         self.fs = fs
         self.patcher = patcher
         patcher.fs = fs
-        self.procs = [VProc(i, 1000 + i, b, self) for i, b in
-                      enumerate(bodies)]
+        # (a body may ask for a pid of its own, e.g. to model the reuse of
+        # the pid of a process that was killed earlier)
+        self.procs = [VProc(i, getattr(b, "vpid", 1000 + i), b, self)
+                      for i, b in enumerate(bodies)]
         self.nkilled = 0
         # bring every process to its first primitive (pure code before it)
         for p in self.procs:
